@@ -467,7 +467,12 @@ class Terms:
         fn = T(e.func)
         # identity wrappers and codec round-trips
         if fn[0] == "glob" and fn[1] in IDENTITY_WRAPPERS and len(args) == 1 and not kwargs:
-            return args[0]
+            a0 = args[0]
+            if a0[0] in ("list", "tuple") and all(x[0] == "const" and isinstance(x[1], int) and 0 <= x[1] < 256 for x in a0[1]):
+                return ("const", bytes(x[1] for x in a0[1]))
+            if a0[0] == "const" and isinstance(a0[1], int):
+                return ("call", fn, args, kwargs, self._site(f, e))  # bytes(n): n zero bytes, not an identity
+            return a0
         if fn[0] == "attr" and fn[2] in ("encode", "decode") and len(args) <= 1:
             inner = fn[1]
             other = "decode" if fn[2] == "encode" else "encode"
